@@ -117,6 +117,30 @@ impl Daemon {
         Daemon { path: path.to_path_buf(), dbox, log, notify: rx, handle: Some(handle), _main_mbox: main_mbox, sent: 0, plain: true, gen_before_send: 0 }
     }
 
+    /// The daemon's own entry point of the writer thread, `shm_writer::run()`, on the real segment
+    /// path (needs the private /run of vlib/sandbox.py): nothing of the start-up code is bypassed.
+    pub fn start_real_run(max_drift_ppb: u32) -> Daemon {
+        let path = Path::new(REAL_SHM_PATH);
+        std::fs::create_dir_all(path.parent().unwrap()).expect("create /var/run/clockbound (private /run?)");
+        let (mut mailbox, dbox) = new_channel_web::<ChannelId, Message>(vec![ChannelId::ClockErrorBoundPoller, ChannelId::MainThread, ChannelId::ShmWriter]);
+        let mbox = mailbox.get_mailbox(&ChannelId::ShmWriter).unwrap();
+        let main_mbox = mailbox.get_mailbox(&ChannelId::MainThread).unwrap();
+        let ctx = Context { channel_id: ChannelId::ShmWriter, mbox, dbox: dbox.clone() };
+        let log = Arc::new(Mutex::new(Vec::new()));
+        let (_tx, rx) = channel();
+        let handle = std::thread::spawn(move || {
+            vworld::clock::set_thread_virtual(true);
+            clock_bound_d::verif_shm_writer::run_real(ctx, max_drift_ppb);
+        });
+        // run() creates the writer itself: wait until the file is there (or the thread is gone)
+        let t0 = std::time::Instant::now();
+        while std::fs::metadata(path).map(|m| m.len() < 72).unwrap_or(true) && !handle.is_finished() && t0.elapsed() < Duration::from_secs(20) {
+            std::thread::sleep(Duration::from_micros(200));
+        }
+        std::thread::sleep(Duration::from_millis(2));
+        Daemon { path: path.to_path_buf(), dbox, log, notify: rx, handle: Some(handle), _main_mbox: main_mbox, sent: 0, plain: true, gen_before_send: 0 }
+    }
+
     pub fn send(&mut self, m: Message) {
         self.sent += 1;
         if self.plain {
@@ -215,6 +239,8 @@ impl Drop for Daemon {
         self.stop();
     }
 }
+
+pub const REAL_SHM_PATH: &str = "/var/run/clockbound/shm";
 
 pub fn read_fresh(path: &Path) -> Result<Raw, String> {
     let c = std::ffi::CString::new(path.to_str().unwrap()).unwrap();
